@@ -118,7 +118,7 @@ def fail(self, exception, trace_back):
     replay('terminal_is_final', 'fail_after_termination')
 
 
-@contract('plumpy.processes.Process.callback_excepted', props=['C01'])
+@contract('plumpy.processes.Process.callback_excepted', props=['C01', 'C03'])
 def callback_excepted(self, _callback, exception, trace):
     requires(wf_proc(self) and not isinstance(self, plumpy.workchains.WorkChain))
     modifies(user_effects, self._state, self._transitioning, self._transition_failing, self._cleanups, self._event_callbacks, self._closed)
@@ -127,7 +127,7 @@ def callback_excepted(self, _callback, exception, trace):
     replay('terminal_is_final', 'late_callback_failure')
 
 
-@contract('plumpy.processes.Process.resume', props=['C01'])
+@contract('plumpy.processes.Process.resume', props=['C01', 'C06'])
 def resume(self, *args):
     requires(wf_proc(self) and not isinstance(self, plumpy.workchains.WorkChain))
     requires(implies(isinstance(self._state, Waiting), isinstance(self._state._waiting_future, asyncio.Future)))
